@@ -56,6 +56,8 @@ def run(obs, scratch, scratch_repo, log):
     tm = re.search(r"total-time:\s*([0-9.]+)|verification time.*?(\d+)\s*ms", out, re.I)
     smt = 0.0
     sm = re.search(r"smt-time[^\d]*(\d+)\s*ms|total smt time[^\d]*([0-9.]+)", out, re.I)
+    with open(os.path.join(verus_extract.CONTRACTS, "verus", "obligations.json")) as fh:
+        all_ob_fns = {e["fn"] for e in json.load(fh)}
     for r in res.values():
         o = r.ob
         r.cmd = " ".join(cmd)
@@ -66,7 +68,8 @@ def run(obs, scratch, scratch_repo, log):
             r.reason = "verus produced no verification result (%s)" % ("timeout" if rc == -1 else "rc=%s: %s" % (rc, out[-300:].replace("\n", " ")))
             continue
         r.n_checks = int(m.group(1)) + int(m.group(2))
-        helper_fail = [k for k in failed_fns if k not in {x.harness for x in verus_obs}]
+        # a failure inside a function that is an obligation of ANOTHER property is that property's business
+        helper_fail = [k for k in failed_fns if k not in all_ob_fns]
         mine = failed_fns.get(o.harness, [])
         if mine:
             r.status = "violated"
